@@ -26,7 +26,7 @@ func init() {
 			ruleErrLoop(r, []string{enginePkg, metricPkg, itersPkg}) // a fault recorded by the decoder is asked for (Err) by every consumer loop before it reports success
 			ruleMergeIter(r)                                         // records of several decoded streams are handed on without loss: the merge refills from the stream it popped
 			ruleOwnWrapScoped(r, []string{metricPkg, enginePkg}, 2)  // a decode fault travels up through every wrapper's Err()
-			ruleGroupEntries(r)        // decoded records are not lost on the way out: every entry of a stream is kept
+			ruleGroupEntries(r)                                      // decoded records are not lost on the way out: every entry of a stream is kept
 		},
 	})
 }
